@@ -61,7 +61,9 @@ structure Mode where
 
 def modeValidChars : List Char := ['r', 'w', 'x', 't', 'a', 'b', '+']
 
-/-- `Mode(mode).validate_bin()` followed by the flag properties; `none` = ValueError -/
+/-- `Mode(mode).validate_bin()` followed by the flag properties; `none` = ValueError.  Since
+`fix: Mode.validate rejects the mode strings io.open rejects` a mode string may not repeat a
+character and must contain exactly one of `r w x a`. -/
 def parseBinMode (m : Str) : Option Mode :=
   match m with
   | [] => none
@@ -69,6 +71,8 @@ def parseBinMode (m : Str) : Option Mode :=
     if !(m.all fun x => modeValidChars.contains x) then none
     else if !(['r', 'w', 'x', 'a'].contains c) then none
     else if m.contains 't' then none
+    else if !m.Nodup then none
+    else if (['r', 'w', 'x', 'a'].filter fun x => m.contains x).length != 1 then none
     else
       let has (x : Char) := m.contains x
       some { reading := has 'r' || has '+',
